@@ -8,7 +8,7 @@ from bv.props.c12 import leaves, set_path
 ID = "C03"
 LEVEL = "exploration"
 RULE = ("generated families biased to what the code generator groups (adjacent Int 1/2/4/8 mixing signs and byte orders incl. class "
-        "default, odd widths, Data(n), interleaved with variable fields, Bits, refs, positioned fields, AutoLength-described fields, "
+        "default, odd widths, Data(n), interleaved with variable fields, Bits, refs, positioned fields, AutoLength-described fields, user-written descriptors with only one of the sync hooks, "
         "callables using the offset/innermost-pkt-pos arguments), each rendered as a generic reference (both generate_* off) and "
         "under k other combinations of generate_for_pack/generate_for_unpack/vectorize/annotate (quick: 6 + 1 per-class mixed; "
         "thorough: all 16 + mixed) x inputs (valid, every truncation <=24, flips, random) and values (consistent trees, out-of-range "
@@ -227,12 +227,93 @@ def run_case(ctx, c):
         ref.close()
 
 
+CUSTOM_SRC = '''
+from bisturi.packet import Packet
+from bisturi.field import Int, Data
+class AfterOnly(object):
+    def __get__(self, inst, owner):
+        return self if inst is None else getattr(inst, self.real_field_name)
+    def __set__(self, inst, v):
+        setattr(inst, self.real_field_name, v)
+    def sync_after_unpack(self, inst):
+        setattr(inst, self.real_field_name, getattr(inst, self.real_field_name) & 0x0f)
+class BeforeOnly(object):
+    def __get__(self, inst, owner):
+        return self if inst is None else getattr(inst, self.real_field_name)
+    def __set__(self, inst, v):
+        setattr(inst, self.real_field_name, v)
+    def sync_before_pack(self, inst):
+        setattr(inst, self.real_field_name, getattr(inst, self.real_field_name) | 0x80)
+class Both(AfterOnly, BeforeOnly):
+    pass
+class T(Packet):
+    __bisturi__ = %(opts)r
+    a = Int(1).describe(AfterOnly())
+    b = Int(1).describe(BeforeOnly())
+    c = Int(2).describe(Both())
+    d = Data(2)
+class U(Packet):
+    __bisturi__ = %(opts)r
+    n = Int(1).describe(AfterOnly())
+    d = Data(n)
+class W(Packet):
+    __bisturi__ = %(opts)r
+    h = Int(2)
+    n = Int(1).describe(BeforeOnly())
+'''
+
+
+def check_custom_descriptors(ctx):
+    """user-written descriptors with only one of the two sync hooks (or both): generated code must call exactly the hooks the
+    generic loop calls"""
+    def outcomes(mod):
+        out = []
+        for cname, raws, kws in (("T", [b"\xf3\x01\x12\x34xy", b"\x00\x00\x00\x00ab", b"\xff"], [dict(a=0x7f, b=1, c=2, d=b"pq"), {}]),
+                                 ("U", [b"\x12" + b"a" * 18, b"\x02ab", b"\xf0", b"\x31Z"], [dict(n=2, d=b"ab"), {}]),
+                                 ("W", [b"\x00\x01\x02", b"\x00"], [dict(h=1, n=3), {}])):
+            cls = getattr(mod, cname)
+            for raw in raws:
+                try:
+                    p = cls.unpack(raw)
+                    out.append((cname, "unpack", raw, [repr(getattr(p, n)) for n, _, _, _ in cls.get_fields()], p.pack()))
+                except Exception as e:
+                    out.append((cname, "unpack", raw, type(e).__name__))
+            for kw in kws:
+                try:
+                    out.append((cname, "pack", repr(kw), cls(**kw).pack()))
+                except Exception as e:
+                    out.append((cname, "pack", repr(kw), type(e).__name__))
+        return out
+    ref = observe.load_source(CUSTOM_SRC % {"opts": GENERIC}, {"pkts": []})
+    try:
+        want = outcomes(ref.module)
+        for combo in decl.all_cg_combos():
+            src = CUSTOM_SRC % {"opts": combo}
+            L = observe.load_source(src, {"pkts": []})
+            try:
+                got = outcomes(L.module)
+                ctx.ev(len(got))
+                for g, w in zip(got, want):
+                    if g != w:
+                        ctx.violation({"sig": "custom-descriptor-hooks-differ", "desc": "generic: %r, generated(%r): %r" % (w, combo, g), "source": src, "kind": "custom-descriptors"})
+                ctx.nt(("custom-descriptors", repr(combo)))
+            finally:
+                L.unload()
+    finally:
+        ref.unload()
+
+
 def run_shard(shard, ctx):
+    if shard["k"] % 8 == 0:
+        check_custom_descriptors(ctx)
     thorough = ctx.tier == "thorough"
     run_given(ctx, cases(thorough), lambda c: run_case(ctx, c), 50 if not thorough else 300)
 
 
 def replay(case, ctx):
+    if case.get("kind") == "custom-descriptors":
+        check_custom_descriptors(ctx)
+        return
     fam, combo = case["fam"], case.get("cg") or {}
     c = {"fam": fam, "combos": [combo], "inputs": [], "values": []}
     if case.get("phase") == "pack":
